@@ -78,7 +78,8 @@ static LineNumber write_define_hunk(LineWriter& output, const Hunk& hunk, const 
         Outside,
         InsideIFNDEF,
         InsideIFDEF,
-        InsideELSE,
+        InsideELSEOfIFNDEF,
+        InsideELSEOfIFDEF,
     };
 
     // A preprocessor directive must be on a line of its own, so both the directive and the line before it
@@ -121,8 +122,13 @@ static LineNumber write_define_hunk(LineWriter& output, const Hunk& hunk, const 
                 define_state = DefineState::InsideIFDEF;
                 write_directive("#ifdef ", define, terminator_of(patch_line.line));
             } else if (define_state == DefineState::InsideIFNDEF) {
-                define_state = DefineState::InsideELSE;
+                define_state = DefineState::InsideELSEOfIFNDEF;
                 write_directive("#else", "", terminator_of(patch_line.line));
+            } else if (define_state == DefineState::InsideELSEOfIFDEF) {
+                // The lines being written are those of the old file, a new conditional is needed for more of the new.
+                define_state = DefineState::InsideIFDEF;
+                write_directive("#endif", "", terminator_of(patch_line.line));
+                write_directive("#ifdef ", define, terminator_of(patch_line.line));
             }
             write_line(patch_line.line);
         } else if (patch_line.operation == '-') {
@@ -133,8 +139,13 @@ static LineNumber write_define_hunk(LineWriter& output, const Hunk& hunk, const 
                 define_state = DefineState::InsideIFNDEF;
                 write_directive("#ifndef ", define, terminator_of(line));
             } else if (define_state == DefineState::InsideIFDEF) {
-                define_state = DefineState::InsideELSE;
+                define_state = DefineState::InsideELSEOfIFDEF;
                 write_directive("#else", "", terminator_of(line));
+            } else if (define_state == DefineState::InsideELSEOfIFNDEF) {
+                // The lines being written are those of the new file, a new conditional is needed for more of the old.
+                define_state = DefineState::InsideIFNDEF;
+                write_directive("#endif", "", terminator_of(line));
+                write_directive("#ifndef ", define, terminator_of(line));
             }
             write_line(line);
         }
